@@ -79,7 +79,8 @@ package internal
 
 //@ func initializeSensors
 //@   params (controllers)
-//@   props C17
+//@   props C17 C08
+//@   atcall[C08.initavg] SetMovingAvg: same(avg, lastValue)
 //@   requires forall i int :: 0 <= i && i < len(controllers) ==> controllers[i] != nil
 //@   requires forall i int, k int :: 0 <= i && i < len(controllers) && (k in controllers[i].Sensors) ==> controllers[i].Sensors[k] != nil
 //@   requires forall a int, b int :: 0 <= a && a < b && b < len(sensorCfgs()) && sensorCfgs()[a].HwMon != nil ==> sensorCfgs()[a].HwMon != sensorCfgs()[b].HwMon
